@@ -89,7 +89,7 @@ def run(r):
         "the VM's sequence of output operations does not depend on the sink (it cannot observe it except through fmt::Error)",
         "user supplied formatters and Object::render implementations propagate fmt::Error",
     ]
-    r.regen_tables(["C19_WRITE_SITES", "C19_WRITER_APIS", "C19_WRAPPER_SITES", "C19_SMALL_INT_LIMIT", "HTML_ESCAPE_TABLE"])
+    r.regen_tables(["C19_WRITE_SITES", "C19_WRITER_APIS", "C19_WRAPPER_SITES", "C19_SMALL_INT_LIMIT", "C19_UNHOOKED_BODIES", "HTML_ESCAPE_TABLE"])
     r.lean_prove("MJ.Props.C19", "MJ/Audit/C19.lean", extra_targets=["drive_c19"])
     exe = r.cargo_build("c19")
     if exe is None:
@@ -104,6 +104,7 @@ def run(r):
         r.broken.append("model driver output does not line up with the harness cases")
         model = None
     clean_res, cur_w = {}, 0
+    hooked = {}        # case key -> (sink-level fields, oracle fields) of the hooked build
     n_prog = n_skip = n_fail_cases = n_ok_cases = n_routed = n_prefix = n_emit = n_emit_det = 0
     apis_with_failures = set()
     for i, line in enumerate(lines):
@@ -195,6 +196,7 @@ def run(r):
             r.broken.append("operation log of a run is not the clean run's log cut at the failing write: %s %s" % (key, m["ops"]))
         else:
             n_prefix += 1
+        hooked[key] = (f[2].rsplit(" ops=", 1)[0], f[3])
         judge(r, key, api, clean_res.get((pid, api), "?"), m, o)
         if model is not None:
             mf = model[i].split("\t")
@@ -202,6 +204,40 @@ def run(r):
                 r.model_disagreement(key, f[2], mf[2] if len(mf) > 2 else model[i])
         if i % 11003 == 0:
             r.sample({"case": key, "engine": f[2], "observed": f[3]})
+    # ---- the same streams against minijinja compiled WITHOUT verif_hooks (what real users compile):
+    # hooked build == unhooked build, and the property on the unhooked observations
+    exe2 = r.cargo_build("c19", no_hooks=True)
+    n_unhooked = 0
+    if exe2 is not None:
+        rc, out2, err = r.harness(exe2, ["gen", r.tier, "sub"])
+        if rc != 0:
+            r.broken.append(f"unhooked harness c19 exited {rc}: {err[-300:]}")
+        else:
+            for line in out2.splitlines():
+                f = line.split("\t")
+                if f[0] == "prog":
+                    o = kv(f[2])
+                    pid, api = f[1].split(" ")[0:2]
+                    if o["res"] != clean_res.get((pid, api)) or o["same"] != "1" and o["res"] != "panic":
+                        r.oracle_failure("%s %s -" % (pid, api), "unhooked build: clean run res=%s same=%s (hooked build: %s)" % (o["res"], o["same"], clean_res.get((pid, api))),
+                                         "unhooked-clean-differs:" + api_class(api))
+                    continue
+                if f[0] != "case":
+                    continue
+                key = f[1]
+                pid, api = key.split(" ")[0:2]
+                m, o = kv(f[2]), kv(f[3])
+                n_unhooked += 1
+                r.count("unhooked " + key, True)
+                judge(r, key, api, clean_res.get((pid, api), "?"), m, o)
+                h = hooked.get(key)
+                if h is None:
+                    r.broken.append("unhooked build ran a case the hooked build did not: " + key[:120])
+                elif h != (f[2].rsplit(" ops=", 1)[0], f[3]):
+                    r.model_disagreement("unhooked " + key, "unhooked: " + f[2] + " | " + f[3], "hooked: " + h[0] + " | " + h[1])
+            if n_unhooked < 20000:
+                r.broken.append("unhooked stream degenerate: %d cases" % n_unhooked)
+    r.extra["cases_rerun_on_unhooked_build"] = n_unhooked
     r.extra["programs_x_apis"] = n_prog
     r.extra["emits_compared"] = n_emit
     r.extra["emits_whose_pieces_the_model_determines"] = n_emit_det
